@@ -375,6 +375,7 @@ def run_set(s, stage_dir, tier):
         if ob["status"] == "FAILURE":
             ob["src"] = src_line(stage_dir, {"file": ob["file"], "line": ob["line"]})
     res["gb"] = gb
+    res["eff_set"] = s          # with the unwind flags computed above: trace re-runs must use the same bounds
     res["wall_s"] = time.time() - t0
     return res
 
@@ -434,7 +435,7 @@ def trace_for(s, res, ob, tier):
     """Re-run cbmc with --trace for one failing property; return compact text of the inputs/trace."""
     if s["mode"] == "N" or "gb" not in res:
         return ob.get("src", "")
-    cmd, rc, out, err, dt = run_cbmc(s, res["gb"], res["wdir"], tier, ["--trace", "--property", ob["name"]], 600)
+    cmd, rc, out, err, dt = run_cbmc(res.get("eff_set", s), res["gb"], res["wdir"], tier, ["--trace", "--property", ob["name"]], 300)
     try:
         data = json.loads(out)
     except Exception:
@@ -537,6 +538,8 @@ def main(argv):
         except stagemod.StageError as e:
             undecided.append("staging: %s" % e)
             sel = []
+        for ms in stage_info.get("r1_misses", []):
+            undecided.append("staging: " + ms)
         # longest first
         sel.sort(key=lambda s: -s.get("weight", 1))
         with cf.ThreadPoolExecutor(max_workers=max(1, NCPU)) as ex:
